@@ -27,7 +27,8 @@ RULE = ('Configurations = (routine, n_rdm x n_cond, grouping descriptors, model 
         'cross-validated bootstraps; states/transitions = nodes/edges of the explored choice trees; one evaluation '
         '= one complete execution of the real routine, every stored number of which is judged against the '
         'reference computed from the recorded samples / folds. Non-trivial = at least one non-identity draw; '
-        'distinct = (configuration, draw history).')
+        'distinct = (configuration, draw history).'
+        ' Also: the n_cv-corrected covariance against the documented projection, per-repetition ceilings of eval_dual_bootstrap_random, model lists with repeated names, stacks of 40 RDMs in 20 groups, every boot_type with grouped descriptors.')
 ASSUMPTIONS = ['the recorded sample / fold objects are what the routine evaluated on (their own faithfulness is C09 / C05)',
                'randomness enters only through numpy.random.randint / shuffle (tripwires elsewhere)',
                'with the n_cv correction off the covariance oracle is the sample covariance the statement describes; with '
